@@ -171,6 +171,11 @@ class Gen:
                 self.pending = ch[1:]
                 self._touch(ch[0])
                 return ch[0]
+        if self.weights.get('dset', 0) and self.weights.get('policy', 0) and self.r.random() < (0.04 if self.naming else 0.006):
+            ch = self.chain_ident_twins()
+            self.pending = ch[1:]
+            self._touch(ch[0])
+            return ch[0]
         kinds = list(self.weights)
         for _ in range(30):
             k = self.r.choices(kinds, [self.weights[x] for x in kinds])[0]
@@ -247,6 +252,29 @@ class Gen:
         else:
             ops.append(['create', 'defs', str(self.w.index[id(lib)]), tok_of_s(n1), '0', '0', '~'])
         ops.append(mk(d, self.r.choice([n2, n2.swapcase(), n1])))
+        return ops
+
+    def chain_ident_twins(self):
+        """a fresh scope under the EDIF policy; one child carries an identifier, a sibling of the same kind asks for
+        the same identifier in another letter case - by assignment and at creation (both refused) - and gets it once
+        the first one has moved to another identifier. (Measured: random histories hardly ever bring two legal
+        identifiers that differ in case only together in one EDIF scope.)"""
+        T = tok_of_s
+        rel, pk = self.r.choice([('ports', 'definition'), ('cables', 'definition'), ('children', 'definition'),
+                                 ('defs', 'library'), ('libs', 'netlist')])
+        a, b = self.r.choice([('Ab', 'aB'), ('sig_A', 'SIG_a'), ('x1', 'X1'), ('&x', '&X'), ('q', 'Q')])
+        d = len(self.w.objs)
+        ident = T('EDIF.identifier')
+        ops = [['policy', '1'],
+               ['new', pk, T('scope'), '0'],
+               ['create', rel, str(d), T('n1'), '1', ident, 's:' + T(a), '0', '~'],
+               ['create', rel, str(d), T('n2'), '0', '0', '~'],
+               ['dset', str(d + 2), ident, 's:' + T(b)],
+               ['create', rel, str(d), T('n3'), '1', ident, 's:' + T(self.r.choice([b, a, a.upper()])), '0', '~'],
+               ['dset', str(d + 1), ident, 's:' + T('other')],
+               ['dset', str(d + 2), ident, 's:' + T(b)]]
+        if self.r.random() < 0.6:
+            ops.append(['policy', '0'])
         return ops
 
     def chain_stale_proxy(self):
